@@ -12,8 +12,10 @@ const RULE: &str = "event = one draw log: 256 calls of random() for one size and
 assignment position takes both values within a log; draws pairwise distinct across all threads (n>=8; at most 5 \
 coinciding pairs for n=6,7); at most 4 draws per log with two equal words (multi-word tables); no two threads \
 with the same first four draws (n>=6). Thresholds are one-sided with a false-alarm probability below 2^-200 \
-for a fair generator. non-trivial = log of a size with more than 1 assignment; distinct = distinct draw logs \
-(digest of the drawn tables)";
+for a fair generator. The same monitors plus 'no table value over-represented' and 'consecutive draws differ' run on \
+logs drawn with sizes and types interleaved in one thread (all sizes in turn, every ordered pair of small sizes \
+alternating, one small draw then a run, random orders). non-trivial = log of a size with more than 1 assignment; \
+distinct = distinct draw logs (digest of the drawn tables)";
 
 const DRAWS: usize = 256;
 const THREADS: usize = 16;
@@ -24,6 +26,20 @@ fn draw_log<T: Tbl>(n: usize) -> Outcome<Vec<Vec<u64>>> {
 
 fn draw_log_dispatch(is_static: bool, n: usize) -> Outcome<Vec<Vec<u64>>> {
     with_ty!(is_static, n, T => draw_log::<T>(n))
+}
+
+/// Smallest k such that  2^log2_values * C(trials, k) * 2^(k * log2_p)  <  2^-200 : a fair generator shows a
+/// given one of 2^log2_values outcomes of probability 2^log2_p at least k times with probability below 2^-200
+/// (union bound).  Returns trials + 1 when no k qualifies (then the monitor can never fire).
+fn tail_threshold(trials: usize, log2_p: f64, log2_values: f64) -> usize {
+    let mut log2_binom = 0.0f64; // log2 C(trials, 0)
+    for k in 1..=trials {
+        log2_binom += ((trials - k + 1) as f64).log2() - (k as f64).log2();
+        if log2_values + log2_binom + (k as f64) * log2_p < -200.0 {
+            return k;
+        }
+    }
+    trials + 1
 }
 
 /// Checkers over one log.
@@ -50,6 +66,25 @@ fn check_log(ctx: &mut Ctx, ev: &Ev, n: usize, log: &[Vec<u64>]) {
     ctx.check("both-values-everywhere", stuck.is_none(), ev, "stuck", || {
         let m = stuck.unwrap();
         format!("assignment {} has the value {} in all {} draws of n={}", m, ones[m] != 0, log.len(), n)
+    });
+    // (2b) no table value is over-represented in the log, and consecutive draws are not equal more often
+    // than chance allows (a generator that hands out the previous draw, or a constant, for part of the calls)
+    let bits = size as f64;
+    // P(some k draws all equal) <= C(N, k) * 2^(-bits * (k - 1)) = 2^bits * C(N, k) * 2^(-bits * k)
+    let k_mult = tail_threshold(log.len(), -bits, bits);
+    let mut counts: HashMap<&Vec<u64>, usize> = HashMap::new();
+    for d in log {
+        *counts.entry(d).or_insert(0) += 1;
+    }
+    let (top_val, top) = counts.iter().max_by_key(|(_, c)| **c).map(|(v, c)| ((*v).clone(), *c)).unwrap();
+    ctx.check("no-value-over-represented", top < k_mult, ev, "multiplicity", || {
+        format!("the table {} occurs {} times among {} draws of n={} (a fair generator stays below {} with probability 1 - 2^-200)",
+            vmon::ctx::hex_of_blocks(&top_val), top, log.len(), n, k_mult)
+    });
+    let adjacent = log.windows(2).filter(|w| w[0] == w[1]).count();
+    let k_adj = tail_threshold(log.len() - 1, -bits, 0.0);
+    ctx.check("consecutive-draws-differ", adjacent < k_adj, ev, "adjacent", || {
+        format!("{} of {} consecutive pairs of draws of n={} are equal (a fair generator stays below {} with probability 1 - 2^-200)", adjacent, log.len() - 1, n, k_adj)
     });
     // (4) multi-word tables: draws whose words repeat
     if n >= 7 {
@@ -137,6 +172,122 @@ fn run(ctx: &mut Ctx, ty: &str, n: usize, threads: usize) {
     check_across(ctx, &ev, n, &ok_logs);
 }
 
+/// One thread, sizes and types interleaved according to `schedule`; every (type, n) gets its own log, which is
+/// then held to the same monitors.  A generator that keeps state between calls (pools of leftover bits,
+/// counters) shows its defects only when tables of different sizes are requested alternately.
+fn run_interleaved(ctx: &mut Ctx, kind: &str, schedule: Vec<(bool, usize)>, fresh_thread: bool) {
+    let sched = schedule.clone();
+    let work = move || -> Outcome<Vec<((bool, usize), Vec<u64>)>> {
+        guard(|| {
+            sched
+                .iter()
+                .map(|(st, n)| {
+                    let t: Vec<u64> = with_ty!(*st, *n, T => T::t_random(*n).t_blocks().to_vec());
+                    ((*st, *n), t)
+                })
+                .collect()
+        })
+    };
+    let r = if fresh_thread {
+        std::thread::spawn(work).join().expect("harness: interleaving thread")
+    } else {
+        work()
+    };
+    let mut desc = Ev::new("interleaved", kind, 0);
+    for (st, n) in schedule.iter().take(8) {
+        desc = desc.int(*n * 2 + *st as usize);
+    }
+    match r {
+        Outcome::Returned(draws) => {
+            let mut logs: HashMap<(bool, usize), Vec<Vec<u64>>> = HashMap::new();
+            for (k, t) in draws {
+                logs.entry(k).or_default().push(t);
+            }
+            let mut keys: Vec<(bool, usize)> = logs.keys().copied().collect();
+            keys.sort();
+            for key in keys {
+                let log = &logs[&key];
+                let (st, n) = key;
+                let ty = if st { "LutN" } else { "Lut" };
+                let ev = Ev::new("interleaved", ty, n).st(kind).int(log.len());
+                ctx.event_digest(&format!("interleaved|{}|{}|n={}", kind, ty, n), log_digest(log), n >= 1, || ev.clone());
+                ctx.bump("draws", log.len() as u64);
+                if log.len() >= 256 {
+                    check_log(ctx, &ev, n, log);
+                } else {
+                    // short logs (the single leading draw of a schedule): well-formedness only
+                    let bad = log.iter().find(|d| well_formed(n, d).is_err());
+                    ctx.check("well-formed", bad.is_none(), &ev, "draw", || "random() returned a malformed table".into());
+                }
+            }
+        }
+        Outcome::Panicked(m) => ctx.violate("no-panic", &desc, "panic", format!("random() panicked in an interleaved schedule: {}", m)),
+    }
+}
+
+fn interleaved_workload(ctx: &mut Ctx, thorough: bool, rng: &mut Rng) {
+    let sizes: Vec<usize> = (0..=MAX_N).collect();
+    // 1/2: all sizes in turn, ascending and descending, both types
+    for (kind, order) in [("cycle-ascending", sizes.clone()), ("cycle-descending", sizes.iter().rev().copied().collect::<Vec<_>>())] {
+        let mut s = Vec::new();
+        for _ in 0..DRAWS {
+            for n in &order {
+                s.push((false, *n));
+                s.push((true, *n));
+            }
+        }
+        run_interleaved(ctx, kind, s, true);
+    }
+    // 3: every ordered pair of small sizes alternating, on a fresh thread each
+    for a in 0..=6usize {
+        for b in 0..=6usize {
+            if a == b {
+                continue;
+            }
+            let (sa, sb) = if thorough { (rng.bool(), rng.bool()) } else { ((a + b) % 2 == 0, (a * b) % 2 == 1) };
+            let mut s = Vec::new();
+            for _ in 0..DRAWS {
+                s.push((sa, a));
+                s.push((sb, b));
+            }
+            run_interleaved(ctx, "alternating-pair", s, true);
+            // 4: one draw of size a, then a run of size b
+            let mut s = vec![(sb, a)];
+            for _ in 0..DRAWS {
+                s.push((sa, b));
+            }
+            run_interleaved(ctx, "one-then-run", s, true);
+        }
+    }
+    // 5: random schedules (every size exactly DRAWS times), also on the main thread
+    for r in 0..if thorough { 12 } else { 2 } {
+        let mut s = Vec::new();
+        for n in &sizes {
+            for _ in 0..DRAWS {
+                s.push((rng.bool(), *n));
+            }
+        }
+        rng.shuffle(&mut s);
+        // make every (type, n) log long enough: top up to DRAWS per key
+        let mut cnt: HashMap<(bool, usize), usize> = HashMap::new();
+        for k in &s {
+            *cnt.entry(*k).or_insert(0) += 1;
+        }
+        let mut extra = Vec::new();
+        for n in &sizes {
+            for st in [false, true] {
+                let have = cnt.get(&(st, *n)).copied().unwrap_or(0);
+                for _ in have..DRAWS {
+                    extra.push((st, *n));
+                }
+            }
+        }
+        rng.shuffle(&mut extra);
+        s.extend(extra);
+        run_interleaved(ctx, "random-order", s, r % 2 == 0);
+    }
+}
+
 const MAX_N: usize = 12;
 
 fn main() {
@@ -160,9 +311,17 @@ fn main() {
             }
         }
     }
+    let thorough = ctx.thorough();
+    let mut irng = Rng::new(cli.seed ^ 0xc19);
+    for _ in 0..if thorough { 4 } else { 1 } {
+        interleaved_workload(&mut ctx, thorough, &mut irng);
+    }
     let mut required: Vec<String> = Vec::new();
     for n in 0..=MAX_N {
         for ty in ["Lut", "LutN"] {
+            for kind in ["cycle-ascending", "cycle-descending", "random-order"] {
+                required.push(format!("interleaved|{}|{}|n={}", kind, ty, n));
+            }
             required.push(format!("log|{}|n={}|threads=1", ty, n));
             required.push(format!("log|{}|n={}|threads={}", ty, n, THREADS));
         }
